@@ -48,23 +48,25 @@ SPEC = {
     "theorems": ["C08_ok", "C08_written_before_done", "C08_done_once_per_scheduling", "C08_store_is_last_write",
                  "C08_stop_waits", "C08_stop_waits_state", "C08_racing_enqueue_all_or_nothing",
                  "C08_late_enqueue_backs_out", "C08_unbuffered_queue_empty", "C08_no_block_forever_partial", "C08_waits_for_ranked", "C08_statement_safety",
+                 "C08_no_block_forever", "C08_enqueue_send_unblocked_by_writer", "C08_stop_wait_released", "C08_statement_holds",
                  "C08_old_racing_enqueue_witness", "C08_old_stop_waits_witness", "C08_old_no_block_forever_witness",
                  "C08_old_statement_witness", "C08_skeleton_Enqueue", "C08_skeleton_startBatchWriter",
                  "C08_skeleton_StopBatchWriter", "C08_skeleton_Flush", "C08_skeleton_runBatchWriter",
                  "C08_skeleton_collector_Add", "C08_skeleton_collector_Commit",
                  "C08_skeleton_type_BatchedWriter", "C08_skeleton_type_Options", "C08_skeleton_type_BatchCollector", "C08_stmts_var_defaultOptions", "C08_stmts_NewBatchedWriter", "C08_stmts_Options_apply", "C08_stmts_WithQueueSize", "C08_stmts_WithBatchSize", "C08_stmts_WithBatchTimeout", "C08_stmts_BatchedWriter_startBatchWriter", "C08_stmts_BatchedWriter_StopBatchWriter", "C08_stmts_BatchedWriter_Enqueue", "C08_stmts_BatchedWriter_Flush", "C08_stmts_BatchedWriter_runBatchWriter", "C08_stmts_newBatchCollector", "C08_stmts_BatchCollector_Add", "C08_stmts_BatchCollector_Commit"],
-    "trusted_base": ["hand-written protocol model Hive/Model/BatchWriter.lean of kvstore/batch_writer.go + batch_collector.go, tied by (a) the trace predicate evaluated on traces of the real code, (b) the witness schedules replayed on the real code with trace equality, (c) regenerated synchronisation skeletons",
-                     "Go semantics of sync.Once / Mutex / WaitGroup / atomics / buffered channels / select as written in the model",
+    "trusted_base": ["hand-written protocol model Hive/Model/BatchWriter.lean of kvstore/batch_writer.go + batch_collector.go, tied by (a) the trace predicate evaluated on traces of the real code, (b) the witness schedules replayed on the real code with trace equality, (c) regenerated synchronisation skeletons, type facts and normalised statements (guards, arguments, constants) of every anchored function",
+                     "Go semantics of sync.Once / Mutex / WaitGroup / atomics / buffered and unbuffered channels / select as written in the model",
                      "Go toolchain, compiled Lean driver, harness trace recorder (one mutex-ordered event log)"],
     "modelled": ["Enqueue, startBatchWriter, StopBatchWriter, Flush, runBatchWriter, BatchCollector.Add/Commit as one atomic step per synchronisation-relevant operation",
+                 "every queue size: buffered (bounded FIFO) and 0 = unbuffered (the send is a rendezvous hand-off to the writer's blocking or non-blocking select)",
                  "the batch time-out timer may fire at any step (abstract time)",
-                 "store errors (Batched()/Commit() failing => writer panics), Int32 overflow of scheduledCount and batch size 0 are NOT modelled",
-                 "BatchWriteObject implementations are the harness's (flag test-and-set, version counter)"],
+                 "store errors (Batched()/Commit() failing => writer panics), Int32 overflow of scheduledCount and batch size <= 0 (index out of range in the writer goroutine) are NOT modelled",
+                 "BatchWriteObject implementations are the harness's (flag test-and-set, version counter, write modes set / delete / delete+set / set+delete; a delete is the value 0 of the trace predicate)"],
     "manifest": {
-        "text": "Protocol model (Hive.Conc.Sys) of BatchedWriter Enqueue/Stop/Flush/writer goroutine/collector with arbitrary queue size, batch size and thread pool; the property is the decidable trace predicate Spec.BatchWriter.ok/okFinal. Full-strength theorems over every reachable configuration, no hypothesis on the schedule: C08_ok (no check of the predicate ever fails), C08_written_before_done, C08_done_once_per_scheduling, C08_store_is_last_write, C08_stop_waits (per Stop call, any number of overlapping Stop callers), C08_stop_waits_state, C08_racing_enqueue_all_or_nothing (okFinal once the writer has terminated), C08_late_enqueue_backs_out, C08_statement_safety. Partial: C08_no_block_forever_partial proves that no reachable configuration is a deadlock, C08_waits_for_ranked that every blocked call waits, through at most three resources taken in the fixed order Once > startStopMutex > WaitGroup/queue > writer goroutine, for a thread that can move (the Once is a lock class); eventual progress of every blocked call under fair scheduling (third clause of C08_statement) is not formalised. Two defects were repaired (writeWg.Add before go; Enqueue counts before it checks running); the old Enqueue protocol is kept as sysOld with proved violating schedules C08_old_racing_enqueue_witness, C08_old_stop_waits_witness, C08_old_no_block_forever_witness, C08_old_statement_witness. Tie: every run's event trace (harness BatchWriteObjects + store wrapper, one mutex-ordered log) is judged by the Lean driver with the same predicate and by an independent index-based Go oracle; stress runs have 1-3 concurrent Stop callers, batch time-outs negative / 0 / 1ns / 1..50 ms / 250 ms and batch and queue sizes 1..4 or the defaults; thousands of fresh writers per run race their very first Enqueue with StopBatchWriter (and a second Enqueue) from a spin barrier, each with a watchdog; the three formerly failing schedules and a two-overlapping-Stops schedule (BatchWrite held on a channel) are forced on the real code (verif yield point in Enqueue, BatchWriteScheduled callback) and must reproduce, per participant, the model's trace on the corresponding Lean schedule; regenerated synchronisation skeletons (C08_skeleton_*).",
-        "note": "Trusted: Lean kernel; hand-written model of batch_writer.go/batch_collector.go (tied by trace predicate on real traces, forced-schedule replay, skeleton regeneration); Go sync primitive semantics (sequentially consistent atomics, Once, Mutex, WaitGroup, buffered channels, select) as modelled; store errors, counter overflow, batch size 0 not modelled; liveness only as deadlock freedom.",
-        "technique": "Lean 4 inductive invariants over an interleaving semantics with arbitrary thread pools + decidable trace predicate evaluated on recorded traces + forced-schedule replay",
+        "text": "Protocol model (Hive.Conc.Sys) of BatchedWriter Enqueue/Stop/Flush/writer goroutine/collector with arbitrary queue size (0 = unbuffered rendezvous), batch size and thread pool; the property is the decidable trace predicate Spec.BatchWriter.ok/okFinal. C08_statement_holds proves the statement at full strength, no hypothesis on the schedule: C08_ok (no check of the predicate ever fails), C08_written_before_done, C08_done_once_per_scheduling, C08_store_is_last_write, C08_stop_waits (per Stop call, any number of overlapping Stop callers), C08_stop_waits_state, C08_racing_enqueue_all_or_nothing (okFinal once the writer has terminated), C08_late_enqueue_backs_out, C08_unbuffered_queue_empty, and the third clause C08_no_block_forever: from every reachable configuration and for every unfinished call there is a continuation, in which the calling thread does not move, after which it can take a step - constructed by well-founded descent (blocked queue send: the writer alone reaches a select, C08_enqueue_send_unblocked_by_writer; Stop in Wait: announced producers finish, the writer drains, commits and exits, C08_stop_wait_released; mutex: the holder releases; Once: the body thread finishes), on top of C08_waits_for_ranked (waits-for ranks Once > startStopMutex > WaitGroup/queue > writer) and C08_no_block_forever_partial (no reachable deadlock). Two defects were repaired (writeWg.Add before go; Enqueue counts before it checks running); the old Enqueue protocol is kept as sysOld with proved violating schedules C08_old_*_witness. Tie: every run's event trace (harness BatchWriteObjects writing set / delete / delete+set / set+delete + store wrapper that reads the store back after every commit, one mutex-ordered log) is judged by the Lean driver with the same predicate and by an independent index-based Go oracle (last BatchWrite per object wins, per commit and at the end); stress runs have 1-3 concurrent Stop callers, batch time-outs negative / 0 / 1ns / 1..50 ms / 250 ms, batch sizes 1..4 or default, queue sizes 0 (unbuffered) / 1..4 / default; same-batch scenario re-enqueues one object into one open batch with every pair of write modes; thousands of fresh writers per run race their very first Enqueue with StopBatchWriter (and a second Enqueue) from a spin barrier, each with a watchdog; the formerly failing schedules and a two-overlapping-Stops schedule are forced on the real code (verif yield point in Enqueue, BatchWriteScheduled callback), on buffered and unbuffered queues, and must reproduce, per participant, the model's trace on the corresponding Lean schedule; regenerated synchronisation skeletons (C08_skeleton_*), type facts (C08_skeleton_type_*) and normalised statements of all anchored functions, option constructors, NewBatchedWriter, newBatchCollector and the default options (C08_stmts_*).",
+        "note": "Trusted: Lean kernel; hand-written model of batch_writer.go/batch_collector.go (tied by trace predicate on real traces, forced-schedule replay, skeleton / type / statement regeneration); Go sync primitive semantics (sequentially consistent atomics, Once, Mutex, WaitGroup, buffered and unbuffered channels, select) as modelled; store errors, counter overflow, batch size <= 0 not modelled; liveness as 'every blocked call can be unblocked by a finite continuation that does not move it' (no scheduler / fairness model).",
+        "technique": "Lean 4 inductive invariants over an interleaving semantics with arbitrary thread pools + constructed unblocking continuations by well-founded descent + decidable trace predicate evaluated on recorded traces + forced-schedule replay",
     },
     "assumptions": ["producer identifiers distinct; every thread starts outside a call (Init)",
-                    "a writer token is in the pool (C08_no_block_forever_partial)"],
+                    "a writer token is in the pool (C08_no_block_forever, C08_no_block_forever_partial)"],
 }
